@@ -269,14 +269,22 @@ def json_shrink(prop, case, sig, budget_s=20.0):
     improved = True
     while improved and time.time() - t0 < budget_s:
         improved = False
-        lists = sorted((p for p, n in paths(cur)), key=lambda p: -len(get(cur, p)))
+        lists = [p for p, n in paths(cur)]
         for p in lists:
-            lst = get(cur, p)
+            try:
+                lst = get(cur, p)
+            except (IndexError, KeyError, TypeError):
+                continue
+            if not isinstance(lst, list):
+                continue
             i = len(lst) - 1
             while i >= 0 and time.time() - t0 < budget_s:
                 cand = json.loads(canonical_json(cur))
-                l2 = get(cand, p)
-                if i < len(l2):
+                try:
+                    l2 = get(cand, p)
+                except (IndexError, KeyError, TypeError):
+                    break
+                if isinstance(l2, list) and i < len(l2):
                     del l2[i]
                     if fails(cand):
                         cur = cand
